@@ -2188,6 +2188,11 @@ func (m *message) advanceToStage(op *operation, newStage messageStage) error {
 			if err := m.encode(op); err != nil {
 				return err
 			}
+			// The limit applies to the re-encoded form, whether or not it is
+			// compressed afterwards.
+			if limit := op.decompressLimit(); int64(m.buf.Len()) > limit {
+				return bufferLimitError(limit)
+			}
 		}
 		if m.wasCompressed {
 			if err := m.compress(op); err != nil {
